@@ -116,7 +116,9 @@ def work(item, tier, seed):
                             badb = [p for p in old_flat if not H.bits_equal(back_flat.get(p), old_flat[p])]
                             if badb:
                                 res.violate(PROP, f"roundtrip-choices:{pname}:{sigS}", address=badb[0], got=back_flat.get(badb[0]), want=old_flat[badb[0]], **det)
-                            if not H.close(float(np.asarray(wb)), -w):
+                            # a move to a zero-density trace (forward weight -inf, already compared with the
+                            # reference) has no defined backward ratio (finite/0): only the choices are compared
+                            if np.isfinite(w) and not H.close(float(np.asarray(wb)), -w):
                                 res.violate(PROP, f"roundtrip-weight:{pname}:{sigS}", forward=w, backward=float(np.asarray(wb)), **det)
                             gfi.check_coherent(res, PROP, f"update-back[{sigS}]", pname, prog, old_args, {}, back_tr, detail=det)
                         except Exception as ex:
